@@ -260,6 +260,7 @@ _handle_features(xmpp_conn_t *conn, xmpp_stanza_t *stanza, void *userdata)
 
     /* remove the handler that detects missing stream:features */
     xmpp_timed_handler_delete(conn, _handle_missing_features);
+    xmpp_timed_handler_delete(conn, _handle_missing_features_sasl);
 
     /* check for TLS */
     if (!conn->secured) {
@@ -958,7 +959,10 @@ static void _handle_open_tls(xmpp_conn_t *conn)
     /* setup handlers for incoming <stream:features> */
     handler_add(conn, _handle_features, XMPP_NS_STREAMS, "features", NULL,
                 NULL);
-    handler_add_timed(conn, _handle_missing_features, FEATURES_TIMEOUT, NULL);
+    /* a server that negotiated STARTTLS has to send features again: don't
+     * fall back to authenticating with what the unprotected stream offered */
+    handler_add_timed(conn, _handle_missing_features_sasl, FEATURES_TIMEOUT,
+                      NULL);
 }
 
 /* called when stream:stream tag received after SASL auth */
